@@ -489,6 +489,30 @@ def check_binary(ctx):
                '%s adds no attribute that the inherited __reduce__ would drop' % cls, 'declares %s' % sorted(own) if own else '')
 
 
+def check_restore_loops(ctx):
+    """__setstate__ rebuilds C vectors and lists from the sequences of the state: what is put back is the element that was carried - a
+    loop over a state sequence never replaces its element by another object (an "equal" one need not be the same: Delay.__eq__ compares
+    the type only)."""
+    prog = ctx.prog
+    for cname in ('Model', 'LineageModel'):
+        ci = prog.classes.get(cname)
+        f = ci.methods.get('__setstate__') if ci is not None else None
+        if f is None:
+            continue
+        bad = []
+        n = 0
+        for lp in [x for x in ast.walk(f) if isinstance(x, ast.For)]:
+            n += 1
+            names = {x.id for x in ast.walk(lp.target) if isinstance(x, ast.Name)}
+            for st in ast.walk(lp):
+                if isinstance(st, (ast.Assign, ast.AugAssign)) and st is not lp:
+                    for t in (st.targets if isinstance(st, ast.Assign) else [st.target]):
+                        if isinstance(t, ast.Name) and t.id in names:
+                            bad.append('`%s` replaces the element being restored (%s)' % (util.stmt_key(st)[:70], ctx.loc(ci.module, st)))
+        ctx.ob('R17.4-ordered-restore', '%s/elements-kept' % cname, not bad, ctx.loc(ci.module, f),
+               'the loops of __setstate__ put back the carried elements themselves (%d loops)' % n, '; '.join(bad[:2]))
+
+
 def check_copy_protocol(ctx):
     """copy.deepcopy / copy.copy of every class of the three modules goes through the reducer and state methods the other rules analyse
     (deepcopy then copies every component recursively): a class that brings its own __deepcopy__ / __copy__ is only accepted when that
@@ -525,6 +549,7 @@ def check(ctx):
     for m in ('types', 'types.pxd', 'simulator', 'simulator.pxd', 'lineage', 'lineage.pxd'):
         prog.mod(m)
     check_copy_protocol(ctx)
+    check_restore_loops(ctx)
     covered = check_pairs(ctx)
     check_coverage(ctx, covered)
     check_reduce_coverage(ctx)
